@@ -90,6 +90,8 @@ class _ModelPool:
         return f
 
     def map(self, fn, *iterables, timeout=None, chunksize=1):
+        if self.kind == 'process' and chunksize < 1:
+            raise ValueError("chunksize must be >= 1.")     # as the real ProcessPoolExecutor.map does
         fs = [self.submit(fn, *args) for args in zip(*iterables)]
 
         def gen():
